@@ -74,7 +74,7 @@ def finalize(agg, tier):
              "ctr_initial_bytes", "ctr_initial_int", "gcm_nonce_not_96", "gcm_nonce_96", "ccm_aad_header_6", "ccm_aad_header_2",
              "ccm_declared", "ccm_undeclared", "siv_no_nonce", "siv_nonce", "chacha_seek", "chacha_walks", "chacha_walk_seek:+2^32-blocks",
              "chacha_walk_seek:same-block", "chacha_walk_seek:last-block-before-a-multiple-of-2^32", "arc4_drop", "bulk_cases", "decoy_objects", "decoy_objects:toggle-param",
-             "decoy_objects:other-iv", "decoy_objects:ecb-same-key"]
+             "decoy_objects:other-iv", "decoy_objects:ecb-same-key", "decoy_objects:other-mac-len"]
     for m in ("CBC", "CFB", "OFB", "CTR", "OPENPGP", "GCM", "CCM", "EAX", "OCB", "CHACHA20_POLY1305", "Salsa20", "ChaCha20"):
         need.append("libchosen:" + m)
     for m in A.CLASSIC_MODES + AEADS + ["KW", "KWP", "CHACHA20_POLY1305"]:
